@@ -73,7 +73,10 @@ fn main() {
             suites_chunk::c12_chunk(&mut em, thorough, seed);
         }
         "C13" => suites_serve::c13(&mut em, thorough, seed),
-        "C14" => suites_serve::c14(&mut em, thorough, seed),
+        "C14" => {
+            suites_serve::c14(&mut em, thorough, seed);
+            suites_serve::c14_clock_crossing(&mut em);
+        }
         "C15" => {
             suites_serve::c15(&mut em, thorough, seed);
             suites_neg::c17(&mut em, false, seed);
